@@ -65,10 +65,17 @@ LEVEL = 'exploration'
 RUN_TIMEOUT_S = 60.0
 MIN_BUDGET = 400
 
+# ~50 ms CPU per world (3 builds x (2 timing tables + all-pairs paths)); 7000 worlds are about
+# 22 s on 16 idle cores
 TIERS = {
-    'quick': {'runs': 9000, 'classes': 8, 'budget_s': 80},
-    'thorough': {'runs': 180000, 'classes': 32, 'budget_s': 1100},
+    'quick': {'runs': 7000, 'classes': 8, 'budget_s': 80},
+    'thorough': {'runs': 150000, 'classes': 32, 'budget_s': 1100},
 }
+
+RULE = ('one evaluation = one program built K times (K hash seeds x Block.__iter__ tie-break '
+        'policies), every build judged against the independent graph computation for two delay '
+        'tables, all fan-outs and all (src, dst) pairs; no cycles are simulated; distinct = '
+        'distinct (netlist digest, schedule digest, event-log digest) tuples')
 
 COMPONENTS = {
     'real': ['pyrtl.TimingAnalysis (timing_map, max_length, max_freq, critical_path)',
